@@ -79,7 +79,7 @@ def _big_instr():
     return st.tuples(st.sampled_from(['biglist', 'bigdict', 'bigset', 'manylists', 'manylists']), st.integers(0, len(BIG) - 1), _ref).map(list)
 
 
-_ACTIONS = ['keep', 'keep', 'keep', 'drop', 'same', 'rekey', 'revalue', 'wrap', 'retype']
+_ACTIONS = ['keep', 'keep', 'keep', 'drop', 'same', 'rekey', 'revalue', 'wrap', 'retype', 'rekey_reorder']
 
 
 def strat(tier):
@@ -202,6 +202,12 @@ def make_visit(table, log):
             if isinstance(value, (list, tuple, dict, set, frozenset)):
                 return key, len(value)
             return key, ('V', value)
+        if act == 'rekey_reorder':
+            # new keys whose sort order differs from the visiting order (-index, str(index)): keys of sequence items are to be
+            # ignored and the items stay in visit order; dict items keep their insertion order under the new keys
+            if type(key) is int:
+                return (-key if kclass(key) else str(key)), value
+            return ('K', key), value
         if act == 'retype':
             # replace a number by an EQUAL value of another type (1 -> 1.0, True -> 1, 2.0 -> 2): the output must hold the new one
             if type(value) is bool:
